@@ -88,11 +88,28 @@ def arg_obj(a, lib, U):
     return U[a["id"]]
 
 
+class _FeedStopped(Exception):
+    pass
+
+
 def apply(lib, op, U):
     try:
         o = op["op"]
         if o == "add":
             bs = [U[x] if isinstance(x, str) else U[x["id"]] for x in op["bs"]]
+            if op.get("gen"):
+                # the blocks come from an iterator that fails after the last of them: the call raises, and the library is
+                # what adding those blocks (one by one) makes of it - recorded as that add, outcome "ok" iff exactly the
+                # iterator's own exception came out
+                def feed():
+                    for b in bs:
+                        yield b
+                    raise _FeedStopped()
+                try:
+                    lib.add(feed(), fail_on_duplicate_key=False)
+                except _FeedStopped:
+                    return "ok"
+                return "add returned although its argument raised"
             lib.add(bs[0] if op.get("single") else bs, fail_on_duplicate_key=op["fail"])
         elif o == "remove":
             xs = [arg_obj(a, lib, U) for a in op["as"]]
@@ -220,14 +237,17 @@ def big_universe(model, rnd):
     def put(name, obj, kind, key, eqc):
         U[name] = obj
         rec[name] = {"id": name, "kind": kind, "key": key, "eqc": eqc}
+    # the three keys are spelled differently from history to history: a key is any string (set through the API), also one
+    # that looks like a format field, is empty, or differs from another only under case folding
+    spell = dict(zip(("k1", "k2", "k3"), rnd.sample(["k1", "k2", "k3", "doe{etal}2020", "a{0}b", "x{}", "", "%d %s", "ß", "SS", "ss", "k\n1", "{"], 3)))
     for k in ("k1", "k2", "k3"):
         for variant in ("a", "b"):
-            put(f"E{k}{variant}", E("article", k, [F("t", variant)]), "entry", k, f"E{k}{variant}")
-        put(f"E{k}a2", E("article", k, [F("t", "a")]), "entry", k, f"E{k}a")   # equal copy of variant a
+            put(f"E{k}{variant}", E("article", spell[k], [F("t", variant)] if variant == "a" else []), "entry", spell[k], f"E{k}{variant}")
+        put(f"E{k}a2", E("article", spell[k], [F("t", "a")]), "entry", spell[k], f"E{k}a")   # equal copy of variant a
     for k in ("k1", "k2"):
         for variant in ("a", "b"):
-            put(f"S{k}{variant}", S(k, variant), "string", k, f"S{k}{variant}")
-    put("Sk1a2", S("k1", "a"), "string", "k1", "Sk1a")
+            put(f"S{k}{variant}", S(spell[k], variant if variant == "a" else ""), "string", spell[k], f"S{k}{variant}")
+    put("Sk1a2", S(spell["k1"], "a"), "string", spell["k1"], "Sk1a")
     put("P1", model.Preamble("p"), "preamble", "", "P1")
     put("P1x", model.Preamble("p"), "preamble", "", "P1")
     put("P2", model.Preamble("q"), "preamble", "", "P2")
@@ -267,6 +287,8 @@ def history(bib, rnd, depth, cid):
             n = rnd.choice([1, 1, 1, 2, 3])
             op = {"op": "add", "bs": [dict(rec[rnd.choice(ids)]) for _ in range(n)],
                   "single": n == 1 and rnd.random() < 0.7, "fail": rnd.random() < 0.3}
+            if rnd.random() < 0.15:
+                op.update(single=False, fail=False, gen=True)
         elif kind == "remove":
             n = rnd.choice([1, 1, 1, 2])
             if n == 1:
